@@ -555,6 +555,8 @@ class Ctl(Harness):
         bb = clean_bounds(P.get("bounds"))
         n_free = n if bb is None else sum(1 for r in bb if r[0] != r[1])
         npt = shape["npt"] or 2 * max(n_free, 0) + 1
+        # nb_points is checked against the number of variables left after the fixed ones are removed
+        npt = max(n_free + 1, min(npt, (n_free + 1) * (n_free + 2) // 2))
         options = dict(maxfev=shape["maxfev"], maxiter=shape["maxiter"], nb_points=npt,
                        radius_init=1.0, radius_final=0.25, scale=bool(P.get("scale")))
         if shape["hist"]:
